@@ -31,6 +31,7 @@ var (
 	fKnown   = flag.String("vs.known", "", "known_findings.json")
 	fRepDir  = flag.String("vs.replaydir", "", "where replay files go")
 	fRepoFP  = flag.String("vs.repofp", "", "repo fingerprint")
+	fCase    = flag.Uint64("vs.case", 0, "run exactly this case seed in generate mode, then replay it (debugging aid)")
 )
 
 var exitCode int
@@ -59,6 +60,7 @@ func TestVerifMain(t *testing.T) {
 }
 
 func run(m *testing.T) int {
+	simkit.InstallKnown(*fKnown)
 	if *fReplay != "" {
 		b, err := os.ReadFile(*fReplay)
 		if err != nil {
@@ -86,6 +88,21 @@ func run(m *testing.T) int {
 	if w == nil {
 		fmt.Println("unknown world", *fWorld)
 		return 2
+	}
+	if *fCase != 0 {
+		c := &simkit.Case{World: w.Name(), Prop: *fProp, Tier: *fTier, Seed: *fCase}
+		out, tr := simkit.Exec(w, c, true, *fVerbose)
+		for _, l := range tr {
+			fmt.Println(l)
+		}
+		fmt.Printf("generate: hash=%s viol=%v infra=%q\n", out.LogHash, out.Violation, firstLine(out.Infra))
+		for i := 0; i < 2; i++ {
+			o2, _ := simkit.Exec(w, c.Clone(), false, false)
+			fmt.Printf("replay %d: hash=%s viol=%v infra=%q\n", i, o2.LogHash, o2.Violation, firstLine(o2.Infra))
+		}
+		b, _ := json.Marshal(c)
+		fmt.Println(string(b))
+		return 0
 	}
 	if *fDet {
 		for i := *fFrom; i < *fTo; i++ {
